@@ -639,7 +639,13 @@ private:
                                      linear_constraint_system_t &o) {
     for (auto kv : e) {
       variable_t pivot = kv.second;
-      interval_t i = compute_residual(e, pivot) / interval_t(kv.first);
+      interval_t residual = compute_residual(e, pivot);
+      interval_t i = residual / interval_t(kv.first);
+      // (division truncates: pivot != k only follows if the residual
+      // is exactly the coefficient times k)
+      if (!(interval_t(kv.first) * i == residual)) {
+        continue;
+      }
       if (auto k = i.singleton()) {
         inequalities_from_disequation(pivot, *k, o);
       }
